@@ -1,6 +1,8 @@
 import Driver.Parse
 import KmipModel.Decode
 import KmipModel.Spec
+import KmipModel.Expect
+import KmipGen.Consts
 /-
   kvdriver: one request per input line, one reply per output line.  Runs the executable model and the
   executable specifications on the inputs the Go harness also gives to the real code.
@@ -12,6 +14,42 @@ def showOutcomeBytes : Outcome Bytes → String
   | .err .eof => "eof"
   | .err .other => "err"
   | .panic s => "panic " ++ s
+
+open Kmip.Expect in
+/-- C18: registry entries whose Go constant is missing or has another number; tagMap entries resolving elsewhere; collisions -/
+def c18Report : String :=
+  let groups : List (String × String × List (String × Nat) × List (String × Nat)) := [
+    ("tag", "", strip Registry.tags, KmipGen.tagConsts),
+    ("type", "", Registry.itemTypes, KmipGen.typeConsts),
+    ("operation", "OPERATION_", strip Registry.operations, KmipGen.enumConsts),
+    ("result-status", "RESULT_STATUS_", Registry.resultStatus, KmipGen.enumConsts),
+    ("result-reason", "RESULT_REASON_", strip Registry.resultReason, KmipGen.enumConsts),
+    ("credential-type", "CREDENTIAL_TYPE_", strip Registry.credentialType, KmipGen.enumConsts),
+    ("object-type", "OBJECT_TYPE_", Registry.objectType, KmipGen.enumConsts),
+    ("state", "STATE_", Registry.state, KmipGen.enumConsts),
+    ("key-format", "KEY_FORMAT_", Registry.keyFormatType, KmipGen.enumConsts),
+    ("key-wrap", "KEY_WRAP_", Registry.keyWrapType, KmipGen.enumConsts),
+    ("wrapping-method", "WRAPPING_METHOD_", Registry.wrappingMethod, KmipGen.enumConsts),
+    ("key-compression", "KEY_COMPRESSION_", Registry.keyCompressionType, KmipGen.enumConsts),
+    ("name-type", "NAME_TYPE_", Registry.nameType, KmipGen.enumConsts),
+    ("crypto-algorithm", "CRYPTO_", Registry.cryptographicAlgorithm, KmipGen.enumConsts),
+    ("padding-method", "PADDING_METHOD_", Registry.paddingMethod, KmipGen.enumConsts),
+    ("hash", "HASH_", Registry.hashingAlgorithm, KmipGen.enumConsts),
+    ("revocation-reason", "REVOCATION_REASON_", Registry.revocationReasonCode, KmipGen.enumConsts),
+    ("block-mode", "BLOCK_MODE_", Registry.blockCipherMode, KmipGen.enumConsts)]
+  let bad := groups.flatMap fun (g, pre, reg, tbl) =>
+    (groupBad pre reg tbl).map fun (n, x) => s!"const|{g}|{goName pre n}|{x}|{(lookup tbl (goName pre n)).getD 0}"
+  let tm := (KmipGen.tagMapStruct ++ KmipGen.tagMapField).filterMap fun (k, n) =>
+    if k == "-" then (if n == 0xffffff then none else some s!"tagmap|-|-|{0xffffff}|{n}")
+    else if lookup KmipGen.tagConsts k == some n then none else some s!"tagmap|annotation|{k}|{(lookup KmipGen.tagConsts k).getD 0}|{n}"
+  let missing := KmipGen.tagConsts.filterMap fun (k, n) =>
+    if lookup KmipGen.tagMapStruct k == some n && lookup KmipGen.tagMapField k == some n then none else some s!"tagmap|unresolvable|{k}|{n}|0"
+  let coll := KmipGen.tagConsts.flatMap fun (a, x) =>
+    (KmipGen.tagConsts.filter fun (b, y) => x == y && a < b &&
+      !((["BATCH_ITEM", "REQUEST_BATCH_ITEM", "RESPONSE_BATCH_ITEM"].contains a && ["BATCH_ITEM", "REQUEST_BATCH_ITEM", "RESPONSE_BATCH_ITEM"].contains b))).map
+      fun (b, _) => s!"collision|tag|{a}={b}|{x}|{x}"
+  let total := (groups.map fun (_, _, reg, _) => reg.length).sum + KmipGen.tagMapStruct.length + KmipGen.tagMapField.length + KmipGen.tagConsts.length
+  s!"ok {total} " ++ ";".intercalate (bad ++ tm ++ missing ++ coll)
 
 def step (line : String) : String :=
   match tokens line with
@@ -43,6 +81,7 @@ def step (line : String) : String :=
       | some (v, n) => s!"ok {n} " ++ showVal v
       | none => "none"
     | _, _ => "bad-op"
+  | ["c18"] => c18Report
   | _ => "bad-op"
 
 partial def loop (h : IO.FS.Stream) (out : IO.FS.Stream) : IO Unit := do
